@@ -148,6 +148,11 @@ CORPUS_CASES = [
     ([{"type": "fixed", "name": "Fx2", "size": 2}, {"type": "fixed", "name": "Fx3", "size": 3}, "bytes"], b"abc"),
     ([{"type": "fixed", "name": "Fx2", "size": 2}, {"type": "fixed", "name": "Fx3", "size": 3}, "bytes"], b"abcd"),
     ([{"type": "fixed", "name": "Fx2", "size": 2}, "bytes"], b"a"), ([{"type": "enum", "name": "En1", "symbols": ["x", "y"]}, "string"], "z"),
+    (["long", "boolean"], True), (["int", "boolean"], False), (["null", "long", "boolean"], True), (["double", "boolean"], True), (["float", "boolean"], False),
+    ({"type": "array", "items": ["long", "boolean"]}, [True, 1, False, 0]),
+    ({"type": "record", "name": "Al", "fields": [{"name": "a", "type": "int", "default": 1, "aliases": ["old_a"]}, {"name": "b", "type": "string", "default": "d", "aliases": ["a2", "bb"]}]},
+     {"old_a": 5, "bb": "from-alias"}),
+    ({"type": "record", "name": "Al2", "fields": [{"name": "a", "type": ["null", "int"], "default": None, "aliases": ["old_a"]}]}, {"old_a": 7}),
     (["float", {"type": "double", "logicalType": "zzz"}], 0.1), (["float", {"type": "double"}], 3), (["int", {"type": "long"}], 1 << 40),
 ] + [
     # hints name branches by FULL name: a namespaced type listed before a null-namespace type of the same short name
